@@ -31,13 +31,40 @@ fn floor_set(x: f64, eps: f64) -> Vec<usize> {
     v
 }
 
+/// floor(p*n) for a given position p: the floor of the exact product and the floor of the rounded product (they
+/// differ only when rounding the product crosses an integer); nothing else is admissible. The exact product is
+/// recovered with a fused multiply-add (n < 2^53).
+fn index_floor_set(p: f64, n: usize) -> Vec<usize> {
+    let nf = n as f64;
+    if n as u64 >= (1u64 << 53) || !(p >= 0.0) {
+        return floor_set(p * nf, 1e-9 * (1.0 + nf));
+    }
+    let x = p * nf;
+    let err = p.mul_add(nf, -x); // exact residual p*n - fl(p*n)
+    let f = x.floor();
+    let mut v = vec![f as usize];
+    if x == f && err < 0.0 && f >= 1.0 {
+        v.push((f - 1.0) as usize); // the exact product lies just below the integer the float product rounded to
+    }
+    v
+}
+
 /// admissible values of round(q*n)
 fn round_set(q: f64, n: usize) -> Vec<usize> {
-    let x = q * n as f64;
+    let nf = n as f64;
+    let x = q * nf;
     let r = x.round();
     let mut v = vec![r as usize];
     let frac = x - x.floor();
-    if (frac - 0.5).abs() < 1e-9 * (1.0 + x.abs()) {
+    if (n as u64) < (1u64 << 53) && q >= 0.0 {
+        // q is given, so the only legitimate ambiguity is the rounding of the product q*n itself: when the rounded
+        // product sits exactly on a half-integer the exact one may lie a hair below it (until round six a window of
+        // 1e-9 * (1 + |x|) was conceded here)
+        let err = q.mul_add(nf, -x);
+        if frac == 0.5 && err < 0.0 {
+            v.push(x.floor() as usize);
+        }
+    } else if (frac - 0.5).abs() < 1e-9 * (1.0 + x.abs()) {
         v.push(x.floor() as usize);
         v.push(x.ceil() as usize);
     }
@@ -91,10 +118,15 @@ pub fn expect(n: usize, q: f64, kind: Kind, level: f64) -> Expect {
         let (rl, ru) = wilson_roots(n as f64, k as f64, z);
         // for a negative z (one-sided level < 1/2) mean - span is the upper root and vice versa
         let (plo, phi) = if z >= 0.0 { (rl, ru) } else { (ru, rl) };
-        let eps = 1e-9 * (1.0 + n as f64);
+        // The crate's bound and the reference root are two floating evaluations of the same real number: each is off by
+        // a few units in the last place of the terms it is made of (k + z^2 in units of 1/n), and of the product itself.
+        // Only inside that window can floor() legitimately differ; 64 units is ~5 times a first-order bound of both.
+        // (Until round six the window was 1e-9 * (1 + n): wide enough to hide a deliberate nudge of the product.)
+        let u = f64::EPSILON / 2.0;
+        let eps_of = |x: f64| 64.0 * u * (1.0 + k as f64 + z * z + x.abs());
         let cap = |v: Vec<usize>| -> Vec<usize> { v.into_iter().map(|r| r.min(n - 1)).collect() };
-        let los = cap(floor_set(plo * n as f64, eps));
-        let his = cap(floor_set(phi * n as f64, eps));
+        let los = cap(floor_set(plo * n as f64, eps_of(plo * n as f64)));
+        let his = cap(floor_set(phi * n as f64, eps_of(phi * n as f64)));
         if los.len() > 1 || his.len() > 1 {
             e.ambiguous = true;
         }
@@ -421,6 +453,15 @@ fn judge_index(n: usize, r: &mut Rng, l: &mut Local) {
     for _ in 0..4 {
         ps.push(r.f64());
         ps.push(r.below(n as u64 + 1) as f64 / n as f64);
+        ps.push(r.below(n as u64 + 1) as f64 / n as f64);
+        // decimal positions: their product with n is often a hair below an integer (0.29 * 100)
+        ps.push(r.below(101) as f64 / 100.0);
+        ps.push(r.below(1001) as f64 / 1000.0);
+    }
+    if n % 100 == 0 {
+        for j in 0..=100 {
+            ps.push(j as f64 / 100.0);
+        }
     }
     for bad in [-0.5, 1.0 + 2f64.powi(-52), 2.0, f64::NAN, f64::INFINITY, f64::NEG_INFINITY] {
         l.eval();
@@ -437,7 +478,7 @@ fn judge_index(n: usize, r: &mut Rng, l: &mut Local) {
     for p in ps {
         l.eval();
         l.count("Stats::index judged");
-        let want = floor_set(p * n as f64, 1e-9 * (1.0 + n as f64)).into_iter().map(|x| x.min(n - 1)).collect::<Vec<_>>();
+        let want = index_floor_set(p, n).into_iter().map(|x| x.min(n - 1)).collect::<Vec<_>>();
         match call(|| quantile::Stats::new(n).index(p)) {
             Out::Ok(i) if want.contains(&i) && i < n => {}
             other => l.violation(
